@@ -992,6 +992,7 @@ impl CompositionGraph {
     ///
     /// This method panics if the provided node id is invalid.
     pub fn unexport(&mut self, node: NodeId) -> Result<(), UnexportError> {
+        let index = node.0;
         let node = &mut self.graph[node.0];
         if let NodeKind::Definition = node.kind {
             return Err(UnexportError::MustExportDefinition);
@@ -1002,6 +1003,9 @@ impl CompositionGraph {
             let removed = self.exports.swap_remove(&name);
             assert!(removed.is_some());
         }
+
+        // The node may have been exported under more than one name
+        self.exports.retain(|_, n| *n != index);
 
         Ok(())
     }
@@ -1019,6 +1023,8 @@ impl CompositionGraph {
     ///
     /// This method panics if the provided node id is invalid.
     pub fn remove_node(&mut self, node: NodeId) {
+        let index = node.0;
+
         // Recursively remove any dependent nodes
         for node in self
             .graph
@@ -1072,6 +1078,9 @@ impl CompositionGraph {
             let removed = self.exports.swap_remove(name);
             assert!(removed.is_some());
         }
+
+        // The node may have been exported under more than one name
+        self.exports.retain(|_, n| *n != index);
 
         if let NodeKind::Definition = node.kind {
             log::debug!(
